@@ -324,8 +324,30 @@ pub fn check_server_string(js: &str, concat: &[MTsDef], detail: &serde_json::Val
             }
         }
     }
-    for k in reference.merged.keys() {
+    for (k, m) in reference.merged.iter() {
         if !seen.contains(k) {
+            if let Merged::Schema(sd) = m {
+                // an omitted schema definition is fine exactly when the emitted SDL still denotes the same
+                // schema: nothing but root operation types in it, and the default-name rule applied to the
+                // emitted types gives the same roots
+                let implied: Vec<(OpType, String)> = [(OpType::Query, "Query"), (OpType::Mutation, "Mutation"), (OpType::Subscription, "Subscription")]
+                    .iter()
+                    .filter(|(_, n)| got.iter().any(|d| matches!(d, MTsDef::Type(t) if t.kind == Kind::Object && t.name == *n)))
+                    .map(|(o, n)| (*o, n.to_string()))
+                    .collect();
+                let mut declared = sd.roots.clone();
+                declared.sort();
+                let mut implied_sorted = implied.clone();
+                implied_sorted.sort();
+                if sd.desc.is_none() && sd.directives.is_empty() && declared == implied_sorted {
+                    continue;
+                }
+                return Err(fail(
+                    "server-sdl-differs:root-types",
+                    format!("the schema definition is omitted, but the emitted SDL then denotes root types {implied:?} (and no schema description/directives) while the checked schema has {sd:?}"),
+                    &sdl,
+                ));
+            }
             return Err(fail("server-sdl-lost", format!("{k:?} is missing from the server schema"), &sdl));
         }
     }
